@@ -10,6 +10,7 @@ cmd-write r:<name> … a:<key>=<attr> … p:<name>=<pval> …           attribut
 → reject | req <typ> <resp> id=<n|-> custom=<vendor/subtype|-> payload=<p<i>|id|default> ka=<trig/ival|->  [; req …]
 enforce-ka <typ> <-|trig/ival>  →  <-|trig/ival>
 doc <r|w> <resource> <action|->  →  <typ>|none                    the README row, as a type code
+switch-diff  →  only-model: <rows> only-source: <rows>            cases of the switch statements on one side only
 ```
 -/
 namespace LLRP.Oracle
@@ -97,6 +98,10 @@ def handleC14 : Handler := fun args =>
     match t.toNat?, parseKA ka with
     | some t, some ka => showKA (enforceKA { typ := t, resp := 0, ka := ka }).ka
     | _, _ => "bad-op"
+  | ["switch-diff"] =>
+    let show1 := fun (r : String × String × String × String × String) => s!"{r.1}|{r.2.1}|{r.2.2.1}|{r.2.2.2.1}|{r.2.2.2.2}"
+    let (a, b) := switchDiff
+    "only-model: " ++ " ; ".intercalate (a.map show1) ++ " only-source: " ++ " ; ".intercalate (b.map show1)
   | ["doc", rw, res, act] =>
     let a := if act = "-" then none else some act
     match Doc.table (rw = "w") res a with
